@@ -336,6 +336,36 @@ theorem displacement1_tric_min {c : Consts} (hc : Std c) (d : Vec) (b : Box) (hd
       linarith
     exact ⟨key _ hs0.1, key _ hs0.2.1, key _ hs0.2.2⟩
 
+/-! ### lattice translations do not change `displacement` -/
+
+theorem pymod_add_int (q : Rat) (i : Int) : pymod (q + (i : Rat)) 1 = pymod q 1 := by
+  rw [pymod_one, pymod_one, Rat.floor_add_intCast]; push_cast; ring
+
+/-- `displacement` of `d + k·B` is `displacement` of `d` — for EVERY box and both branches (a singular box
+is rejected on both sides). -/
+theorem displacement1_shift {c : Consts} (hc : Std c) (d : Vec) (b : Box) (i j k : Int) :
+    displacement1 c (d.add (vecMul (ofInts i j k) b)) b = displacement1 c d b := by
+  by_cases hdet : b.det = 0
+  · simp [displacement1, coordToFraction_none _ b hdet]
+  · obtain ⟨f, hf⟩ : ∃ f, coordToFraction d b = some f := ⟨_, coordToFraction_eq d b hdet⟩
+    have hd : fractionToCoord f b = d := fractionToCoord_coordToFraction d f b hf
+    have he : d.add (vecMul (ofInts i j k) b) = fractionToCoord (f.add (ofInts i j k)) b := by
+      rw [← hd, shift_eq]; rfl
+    have hfe : coordToFraction (d.add (vecMul (ofInts i j k) b)) b = some (f.add (ofInts i j k)) := by
+      rw [he]; exact coordToFraction_fractionToCoord _ b hdet
+    have hg : (f.add (ofInts i j k)).map1 (fun q => pymod q 1) = f.map1 (fun q => pymod q 1) := by
+      apply V3.ext' <;> simp only [V3.map1, V3.add, ofInts] <;> exact pymod_add_int _ _
+    simp only [displacement1, hf, hfe, hc.dispMod, hg]
+
+theorem sub_latVec (p q : Vec) (b : Box) (n m : Int × Int × Int) :
+    ((p.add (latVec b n)).sub (q.add (latVec b m))) =
+      (p.sub q).add (vecMul (ofInts (n.1 - m.1) (n.2.1 - m.2.1) (n.2.2 - m.2.2)) b) := by
+  apply V3.ext' <;> simp only [latVec, V3.add, V3.sub, vecMul, ofInts] <;> push_cast <;> ring
+
+theorem displacement1_latVec {c : Consts} (hc : Std c) (p q : Vec) (b : Box) (n m : Int × Int × Int) :
+    displacement1 c ((p.add (latVec b n)).sub (q.add (latVec b m))) b = displacement1 c (p.sub q) b := by
+  rw [sub_latVec, displacement1_shift hc]
+
 /-! ### `move_inside_box` -/
 
 theorem moveInside1_spec {c : Consts} (hc : Std c) (x : Vec) (b : Box) (hdet : b.det ≠ 0) :
